@@ -49,6 +49,22 @@ def run(ctx):
         lines[k] = c13.mutate_line(rnd, lines[k])
         muts.append(lines)
     asmcheck.run_text_suite(ctx, "mutated-programs-accepted-text", muts)
+    # programs that INCLUDE a (label-free) file once, twice or three times: what is listed and what is emitted must still agree statement by statement
+    import os
+    incdir = os.path.join(tlc.OUT, "c02inc")
+    os.makedirs(incdir, exist_ok=True)
+    bodies = [[" NOP \n"], [" LDA #1\n", " STA $0400\n"], [" FCB 1,2,3\n", " RMB 5\n", " FDB $1234\n"], [" LEAX 2,PCR\n", " BRA *+2\n"][:1] + [" CLRA \n"], [" FCC /text/\n"]]
+    for j, b in enumerate(bodies):
+        with open(os.path.join(incdir, "common%d.asm" % j), "w") as f:
+            f.write("".join(b))
+    incs = []
+    for _ in range(6000 if thorough else 600):
+        lines = list(rnd.choice(corpus[1:]))
+        inc = " INCLUDE %s\n" % os.path.join(incdir, "common%d.asm" % rnd.randrange(len(bodies)))
+        for _k in range(rnd.choice([1, 2, 2, 3])):
+            lines.insert(rnd.randrange(1, len(lines) + 1), inc)
+        incs.append(lines)
+    asmcheck.run_text_suite(ctx, "include-repeated-accepted-text", incs)
     ctx.cov["rule"] = ("programs of the bounded reference model (TLC-exported), one labelled frame per opcode-table cell, and seeded random programs of 3-200 statements "
                        "(all operand forms, labels on every statement in the long ones, EQUs before/after, ORG none/first/late/repeated at 8 origins, duplicate and undefined "
                        "labels). Judged by TLC: addresses advance by the bytes emitted, image = concatenation placed at the reported origin, every symbol-table line, "
